@@ -12,6 +12,8 @@ import (
 	"math/rand"
 	"net/http"
 	"net/url"
+	"os"
+	"path/filepath"
 	"strings"
 	"time"
 
@@ -34,6 +36,11 @@ type Case struct {
 	// NamedTarget: the gun's target is written as a host name ("localhost:port") instead of an IP
 	// literal: requests without a Host of their own carry that name, whatever the gun resolved it to
 	NamedTarget bool `json:"named_target,omitempty"`
+	// gun options that handle the request before it is sent: the answer log (filter all: the body is
+	// read and put back), httptrace dump+trace (the request is dumped with its body), a shared client pool
+	AnswLog      bool `json:"answlog_all,omitempty"`
+	Trace        bool `json:"httptrace_dump_trace,omitempty"`
+	SharedClient int  `json:"shared_client_number,omitempty"`
 	Text  string `json:"file_preview,omitempty"`
 }
 
@@ -105,6 +112,15 @@ func runCase(res *vkit.Result, c Case) {
 	if c.NoKeep {
 		gun["disable-keep-alives"] = true
 	}
+	if c.AnswLog {
+		gun["answlog"] = map[string]any{"enabled": true, "filter": "all", "path": answLogPath()}
+	}
+	if c.Trace {
+		gun["httptrace"] = map[string]any{"dump": true, "trace": true}
+	}
+	if c.SharedClient > 0 {
+		gun["shared-client"] = map[string]any{"enabled": true, "client-number": c.SharedClient}
+	}
 	rps := 400
 	if c.Paced {
 		gun["response-header-timeout"] = "150ms"
@@ -162,6 +178,13 @@ func runCase(res *vkit.Result, c Case) {
 		}
 		if r.TLS != c.SSL {
 			d = append(d, fmt.Sprintf("tls=%v want %v", r.TLS, c.SSL))
+		}
+		if c.Gun == "http2" {
+			if r.Proto == "HTTP/2.0" {
+				res.Count("requests_over_http2", 1)
+			} else {
+				d = append(d, fmt.Sprintf("protocol %q from the http2 gun", r.Proto))
+			}
 		}
 		if x.Host != "" {
 			if r.Host != x.Host {
@@ -230,7 +253,11 @@ func runCase(res *vkit.Result, c Case) {
 		}
 		conns = len(used)
 	}
-	if c.NoKeep {
+	if c.SharedClient > 0 {
+		// the statement's connection clause is about per-instance clients; with a shared pool only
+		// the requests are judged
+		res.Count("cases_with_shared_client", 1)
+	} else if c.NoKeep {
 		if conns != total {
 			fail("connections", "keep-alives disabled: %d requests over %d connections, want one connection per request", total, conns)
 		}
@@ -246,6 +273,15 @@ func runCase(res *vkit.Result, c Case) {
 		res.Sample(map[string]any{"format": c.File.Format, "gun": c.Gun, "ssl": c.SSL, "disable_keep_alives": c.NoKeep, "instances": c.Instances,
 			"config_headers": c.Conf, "file": c.Text, "requests_received": total, "connections": conns})
 	}
+}
+
+// answLogPath: the answer log is a real file (zap opens it through the os); one per process.
+func answLogPath() string {
+	d := os.Getenv("VERIF_TMP")
+	if d == "" {
+		d = os.TempDir()
+	}
+	return filepath.Join(d, fmt.Sprintf("c09-answ-%d.log", os.Getpid()))
 }
 
 func canon(k string) string {
@@ -267,6 +303,20 @@ func gen(rng *rand.Rand, i int) Case {
 	}
 	c.SSL = c.Gun == "http" && rng.Intn(3) == 0
 	c.NoKeep = rng.Intn(3) == 0
+	if i%6 == 5 {
+		// the HTTP/2 gun (TLS only): one multiplexed connection per instance
+		c.Gun, c.SSL, c.NoKeep = "http2", true, false
+	}
+	switch i % 7 {
+	case 1:
+		c.AnswLog = true
+	case 3:
+		c.Trace = true
+	case 5:
+		c.SharedClient = 1 + rng.Intn(3)
+	case 6:
+		c.AnswLog, c.Trace = true, rng.Intn(2) == 0
+	}
 	if i%40 == 7 {
 		c.Paced, c.NoKeep, c.Preload = true, false, false
 		c.Instances = 1 + rng.Intn(3)
@@ -325,12 +375,15 @@ func seeds() []Case {
 	}
 	out = append(out, Case{File: mk("uri"), Gun: "http", Instances: 2, Passes: 4, Paced: true})
 	out = append(out, Case{File: mk("uripost"), Gun: "connect", Instances: 1, Passes: 3, Paced: true})
+	out = append(out, Case{File: mk("uripost"), Gun: "http", Instances: 2, Passes: 2, AnswLog: true, Trace: true})
+	out = append(out, Case{File: mk("raw"), Gun: "http2", SSL: true, Instances: 2, Passes: 2})
+	out = append(out, Case{File: mk("jsonline"), Gun: "http", Instances: 3, Passes: 2, SharedClient: 2})
 	return out
 }
 
 func main() {
 	vkit.Fs()
-	res := vkit.NewResult("pools decoded from config maps: ammo in uri/uripost/raw/http-json (1–6 entries, unique ?vid markers, header sets incl. Host) × `headers` option lists colliding with ammo headers in the same and in different letter case (incl. Host) × gun {http, connect} × ssl × disable-keep-alives × 1–11 instances × 1–4 passes × preload on/off, fired at an in-process recording HTTP(S) target that also serves CONNECT tunnels and answers in six shapes (fixed length, empty, chunked, long without declared length, 204, 404); distinct = distinct (file, option list, gun settings); non-trivial = ≥ 2 requests received")
+	res := vkit.NewResult("pools decoded from config maps: ammo in uri/uripost/raw/http-json (1–6 entries, unique ?vid markers, header sets incl. Host) × `headers` option lists colliding with ammo headers in the same and in different letter case (incl. Host) × gun {http, connect, http2} × answlog (filter all) / httptrace dump+trace / shared-client × ssl × disable-keep-alives × 1–11 instances × 1–4 passes × preload on/off, fired at an in-process recording HTTP(S) target that also serves CONNECT tunnels and answers in six shapes (fixed length, empty, chunked, long without declared length, 204, 404); distinct = distinct (file, option list, gun settings); non-trivial = ≥ 2 requests received")
 	var err error
 	for _, tls := range []bool{false, true} {
 		targets[tls], err = vkit.NewHTTPTarget(tls)
@@ -346,13 +399,13 @@ func main() {
 		cases = append(cases, gen(rng, i))
 	}
 	for i, c := range cases {
-		if c.Gun == "http" && i%5 == 2 {
+		if c.Gun == "http" && i%5 == 2 && c.SharedClient == 0 {
 			c.NamedTarget = true
 			res.Count("cases_with_named_target", 1)
 		}
 		runCase(res, c)
 	}
-	if res.Counter("requests_matched") < 100 || res.Counter("cases_with_config_headers") < 10 {
+	if res.Counter("requests_matched") < 100 || res.Counter("cases_with_config_headers") < 10 || res.Counter("requests_over_http2") < 10 {
 		res.Inconclusive(true, "too few requests matched")
 	}
 	res.Write()
